@@ -269,6 +269,8 @@ def cmd_check(prop, tier, repo, batch_seed, runs=None, quiet=False, wall=None, o
     n_runs = runs or world_cls.RUNS[tier]
     wall_s = wall or world_cls.WALL[tier]
     excluded = [] if os.environ.get('SIMLAB_NO_EXCLUDE') else excluded_for(prop)
+    if os.environ.get('SIMLAB_INCLUDE'):          # generate these known triggers anyway (to capture a replay)
+        excluded = [t for t in excluded if t not in os.environ['SIMLAB_INCLUDE'].split(',')]
     ncpu = min(16, os.cpu_count() or 1)
     print('simlab %s tier=%s VERIF_SEED=%d runs=%d groups=%d cpus=%d repo=%s excluded=%s' % (
         prop, tier, batch_seed, n_runs, min(GROUPS[tier], n_runs), ncpu, repo, excluded))
